@@ -59,11 +59,12 @@ let lop_of_string (s : string) : lop =
   | _ -> failwith ("lop: " ^ s)
 
 let show_events (ws : owriter list) (evs : event list) : string =
-  let is_flw n = List.exists (fun w -> w.ow_name = n && w.ow_kind = WFlw) ws in
+  (* FileLogWriters and SyslogWriters are observed from outside (file size, datagrams), in the order of their registration *)
+  let is_flw n = List.exists (fun w -> w.ow_name = n && w.ow_kind <> WCustom) ws in
   let writes = List.filter_map (function
       | EvWrite (n, true) when not (is_flw n) -> Some (hex_of_ustr n ^ "+")
       | _ -> None) evs in
-  let fl = List.filter_map (fun w -> if w.ow_kind = WFlw then
+  let fl = List.filter_map (fun w -> if w.ow_kind <> WCustom then
                                Some (hex_of_ustr w.ow_name ^
                                      (if List.exists (function EvWrite (n, true) -> n = w.ow_name | _ -> false) evs then "+" else "-"))
                              else None) ws in
